@@ -18,7 +18,7 @@ def one(m):
         shutil.copy("/repo/Cargo.lock", tmp)
         fp = os.path.join(tmp, path)
         s = open(fp).read()
-        if s.count(old) != 1:
+        if s.count(old) != 1 and not name.startswith("b.rename"):
             return (name, "BAD-MUTATION (old text occurs %d times)" % s.count(old), [])
         open(fp, "w").write(s.replace(old, new))
         env = dict(os.environ, VERIF_REPO=tmp, VERIF_EVIDENCE_DIR=os.path.join(tmp, ".ev"))
